@@ -47,6 +47,8 @@ try:
         res["demo_with_patch"] = rc1
         res["demo_output_with_patch"] = out1
         b = sh("/venv/bin/python /verif/tools/baseline.py %s" % wt)
+        if b.returncode != 0:       # the suite is timing-sensitive under load: one retry
+            b = sh("/venv/bin/python /verif/tools/baseline.py %s" % wt)
         res["baseline_with_patch"] = b.stdout.strip().split("\n")[0]
         res["baseline_ok"] = b.returncode == 0
         os.makedirs(vc)
@@ -64,7 +66,8 @@ try:
     dst = "/verif/seeded/%s" % sid
     os.makedirs(dst, exist_ok=True)
     for fn in ("patch.diff", "demo.py"):
-        shutil.copy(os.path.join(mutdir, fn), os.path.join(dst, fn))
+        if os.path.abspath(os.path.join(mutdir, fn)) != os.path.abspath(os.path.join(dst, fn)):
+            shutil.copy(os.path.join(mutdir, fn), os.path.join(dst, fn))
     meta = {}
     try:
         meta = json.load(open(os.path.join(mutdir, "meta.json")))
